@@ -216,6 +216,10 @@ struct Session {
 	size_t ready_at_recvd[2] = { 0, 0 };
 	std::function<void()> on_established;   // called once, when both sides first report a completed handshake
 	bool established = false;
+	std::function<void()> on_round;          // called at the start of every scheduling round (event injection)
+	bool cut = false;                        // transport cut: no wire byte moves any more
+	uint64_t delivered_to[2] = { 0, 0 };     // wire bytes handed to each side's engine
+	std::vector<uint64_t> rec_end[2];        // cumulative wire offset (in transit order) at the end of each forwarded record
 
 	Session(Endpoint *c, Endpoint *s) { ep[0] = c; ep[1] = s; }
 
@@ -344,7 +348,9 @@ struct Session {
 			VF_CHECK(r.type >= 20 && r.type <= 23, "%s emitted a record of type %u (version %04x, length %zu) after %zu well-formed records, the last one type %u with %zu bytes",
 				ep[side]->name.c_str(), r.type, r.version, r.payload.size(), tap.recs[side].size(),
 				tap.recs[side].empty() ? 0 : tap.recs[side].back().type, tap.recs[side].empty() ? (size_t)0 : tap.recs[side].back().payload.size());
-			VF_CHECK(r.version >= 0x0301 && r.version <= 0x0303, "%s emitted a record with version %04x", ep[side]->name.c_str(), r.version);
+			// (an alert emitted before any hello has been processed carries version 0: not judged)
+			VF_CHECK((r.version >= 0x0301 && r.version <= 0x0303) || (r.version == 0 && r.type == 21 && !ep[side]->handshake_done()),
+				"%s emitted a record with version %04x", ep[side]->name.c_str(), r.version);
 			VF_CHECK(r.payload.size() <= 16384 + 2048, "%s emitted a record of %zu bytes", ep[side]->name.c_str(), r.payload.size());
 			if (use_tap) tap.on_record(side, r);
 			if (mitm) {
@@ -363,6 +369,7 @@ struct Session {
 	{
 		bool progress = false;
 		rounds++;
+		if (on_round) on_round();
 		for (int side = 0; side < 2; side++) {
 			Endpoint *e = ep[side];
 			if (jitter && tape && !tape->exhausted() && tape->u8() < 48) continue;   // this side sits the round out
@@ -371,7 +378,7 @@ struct Session {
 			if (recvd[1 - side] != before) progress = true;
 			if (run_script(side)) progress = true;
 			const uint8_t *p;
-			size_t n = e->wire_out_peek(&p);
+			size_t n = cut ? 0 : e->wire_out_peek(&p);
 			if (n) {
 				size_t k = chunk(wire_out_pol[side], n);
 				Bytes copy(p, p + k);   // the ack may recycle the buffer
@@ -380,12 +387,13 @@ struct Session {
 				progress = true;
 			}
 			Fifo &in = transit[1 - side];
-			if (!in.empty()) {
+			if (!in.empty() && !cut) {
 				size_t room = e->wire_in_room();
 				if (room) {
 					size_t k = chunk(wire_in_pol[side], in.size() < room ? in.size() : room);
 					e->wire_in(in.data(), k);
 					in.pop(k);
+					delivered_to[side] += k;
 					progress = true;
 				}
 			}
